@@ -14,6 +14,8 @@ import Golib.Packs.Container
 import Golib.Packs.Irregular
 import Golib.Layout.Prefix
 import Golib.Packs.Caps
+import Golib.Layout.HeaderProg
+import Golib.Layout.Reencode
 import Golib.Gen.PackLayouts
 
 namespace C03Gen
@@ -138,6 +140,36 @@ theorem agree_LogSinkPack : agrees Packs.Hand.LogSinkPack.w LogSinkPack.r = true
 theorem agree_ParamPack : agrees Packs.Hand.ParamPack.w Packs.Hand.ParamPack.r = true := by decide
 theorem agree_ExtensionPack : agrees Packs.Hand.ExtensionPack.w Packs.Hand.ExtensionPack.r = true := by decide
 theorem agree_EventPack_wire : agrees Packs.Hand.EventPack.w Packs.Hand.EventPack.r = true := by decide
+
+/-! ### the common header, INTERPRETED: the statements of `AbstractPack.Write` / `AbstractPack.Read` as regenerated
+    (`AbstractPack.wProg` / `rProg`, xlate/c03/header.go) mean, for every header and every input, exactly the
+    model the layout IR uses for `.hdr` (`encHeader` / `decHeader`, Golib/Layout/Header.lean) -/
+
+/-- **writer**: for every header whose fields are in their Go types' ranges, what the transcribed statements
+    write is `encHeader h` (the `(Okind | Onode) == 0` test is evaluated as a 32-bit bitwise or: `or32Zero_eq`) -/
+theorem header_writer_interpreted (h : Hdr) (wf : h.WF) : AbstractPack.wProg.write h = encHeader h := by
+  obtain ⟨_, _, h3, h4, _⟩ := wf
+  simp [AbstractPack.wProg, WS.write, Hdr.get, or32Zero_eq _ _ h3 h4, encHeader, Hdr.short]
+
+/-- **reader**, as a decoder program (hence on every input, complete or not): running the transcribed
+    statements on an object holding `h0` is `decHeaderInto h0` … -/
+theorem header_reader_interpreted (h0 : Hdr) : AbstractPack.rProg.toP nenv0 h0 = decHeaderInto h0 := by
+  simp [AbstractPack.rProg, RS.toP, NEnv.set, Hdr.set, decHeaderInto]
+
+/-- … and on a fresh object (what `CreatePack` hands to `Read`) it is the `decHeader` of the layout IR -/
+theorem header_reader_fresh : AbstractPack.rProg.toP nenv0 hdr0 = decHeader := by
+  rw [header_reader_interpreted, decHeaderInto_fresh]
+
+/-- both transcriptions are complete (no statement the translator did not know) -/
+theorem header_progs_total : AbstractPack.wProg.total = true := by decide
+
+example : AbstractPack.wProg.write ⟨300, 1, 7, 0, 99⟩ = encHeader ⟨300, 1, 7, 0, 99⟩ :=
+  header_writer_interpreted _ (by decide)
+
+/-! ### LogSinkPack's content codec (`GetContentBytes` / `SetContentBytes`, pinned by skeleton) -/
+theorem agree_LogSinkContent : agrees Packs.Hand.LogSinkContent.w Packs.Hand.LogSinkContent.r = true := by decide
+theorem LogSinkContent_tailFree : Packs.Hand.LogSinkContent.r.tailFree = true := by decide
+theorem LogSinkContent_known : Packs.Hand.LogSinkContent.w.known = true := by decide
 
 /-! ### bounded tables: the limits the constructors set (SetMax), as recorded in Golib/Packs/Caps.lean -/
 theorem caps_as_recorded : caps = Packs.expectedCaps := by decide
